@@ -136,6 +136,24 @@ func TestExplore(t *testing.T) {
 			st.ChainEvents += len(seqv)
 		}
 	}
+	// directed: malformed Authenticate-Requests from the owner at every stage of the session's life; nothing
+	// that follows them may look like service (no verdict was ever given)
+	for _, ts := range all[:2] {
+		ev := func(op string, m, sid int) core.Event { return core.Event{"op": op, "m": m, "sid": sid} }
+		var seqv []core.Event
+		for _, own := range []core.Event{ev("PADI", 1, 0), ev("PADR", 1, 0), ev("LCPCR", 1, 1), ev("LCPACK", 1, 1)} {
+			seqv = append(seqv, own, ev("PAPMAL", 1, 1), ev("PAPCUT", 1, 1), ev("IPCPCR", 1, 1), ev("IPCPACK", 1, 1), ev("IP", 1, 1))
+		}
+		seqv = append(seqv, ev("PADI", 2, 0), ev("PADR", 2, 0), ev("PAPCUT", 2, 2), ev("PAPGOOD", 1, 1), ev("IPCPCR", 2, 2), ev("PAPMAL", 1, 1), ev("IPCPCR", 1, 1), ev("IP", 2, 2))
+		tab, pr := core.Chain(ts, ts.Name()+"#malformed-pap", seqv, false)
+		if pr != nil {
+			st.Panics = append(st.Panics, *pr)
+		} else {
+			bundle.Systems = append(bundle.Systems, tab)
+			st.Chains++
+			st.ChainEvents += len(seqv)
+		}
+	}
 	if err := core.WriteJSON(out, "bundle.json", bundle); err != nil {
 		t.Fatal(err)
 	}
